@@ -77,21 +77,20 @@ def interp (lo hi : UInt64) : Val :=
 
 /-! ## decimal logarithm and the selected member -/
 
-def fixDown : Nat → Nat → Nat → Nat
-  | 0, _, d => d
-  | fuel + 1, n, d => if d > 0 && 10 ^ d > n then fixDown fuel n (d - 1) else d
+/-- number of decimal digits by repeated division (the definition; quadratic in the length) -/
+def ndigitsSlow (n : Nat) : Nat :=
+  if h : n < 10 then 1 else ndigitsSlow (n / 10) + 1
+decreasing_by omega
 
-def fixUp : Nat → Nat → Nat → Nat
-  | 0, _, d => d
-  | fuel + 1, n, d => if 10 ^ (d + 1) ≤ n then fixUp fuel n (d + 1) else d
-
-/-- number of decimal digits of n (1 for 0): the d with 10^(d-1) ≤ n < 10^d, found from a
-    binary-logarithm estimate and corrected -/
+/-- number of decimal digits of n (1 for 0): the d with 10^(d-1) ≤ n < 10^d.  A guess from the binary
+    logarithm is used when it verifies (two comparisons), the defining recursion otherwise, so the
+    function is `ndigitsSlow` for every input. -/
 def ndigits (n : Nat) : Nat :=
   if n == 0 then 1 else
-  let d0 := n.log2 * 1233 / 4096
-  let d1 := fixDown 8 n d0
-  fixUp 8 n d1 + 1
+  let d := n.log2 * 1233 / 4096 + 1
+  if 10 ^ (d - 1) ≤ n && n < 10 ^ d then d
+  else if 10 ^ d ≤ n && n < 10 ^ (d + 1) then d + 1
+  else ndigitsSlow n
 
 /-- ⌊log10 q⌋ for q > 0 -/
 def ilog10 (q : Rat) : Int :=
